@@ -196,8 +196,22 @@ def generate(rng, tier):
         rad = [rng.choice([0.0, rng.uniform(0, 1) * min(w, h), rng.uniform(0, 2) * max(w, h), -rng.uniform(0, 0.5) * min(w, h)]) for _ in range(4)]
         prr = corners + rad
         pts = near_boundary_points(rng, 'rect', corners, max(w, h), 10)
+        # query points in the corner squares (between the sharp corner and the deepest possible rounding): where the corner radii decide
+        xa, xb, ya, yb = min(corners[0], corners[2]), max(corners[0], corners[2]), min(corners[1], corners[3]), max(corners[1], corners[3])
+        mm = min(w, h) / 2
+        for (cx_, sx_) in ((xa, 1.0), (xb, -1.0)):
+            for (cy_, sy_) in ((ya, 1.0), (yb, -1.0)):
+                f_ = rng.choice([0.02, 0.05, 0.12, 0.25])
+                pts.append([cx_ + sx_ * f_ * mm * rng.uniform(0.5, 1.5), cy_ + sy_ * f_ * mm * rng.uniform(0.5, 1.5)])
         yield full('rrect', prr, 1e-9 * min(w, h), acc, pts, 'rounded-rect')
         yield closed_model('rrect', prr, pts, False)
+        # the same shape and query points scaled by an exact power of two (nanometre / astronomical units): every closed form must scale with it
+        k2 = 2.0 ** rng.choice([-36, -30, 30])
+        o2 = (corners[0], corners[1])
+        sc2 = lambda x, y: ((x - o2[0]) * k2, (y - o2[1]) * k2)
+        c2 = list(sc2(corners[0], corners[1]) + sc2(corners[2], corners[3]))
+        pts2 = [list(sc2(q[0], q[1])) for q in pts]
+        yield full('rrect', c2 + [r * k2 for r in rad], 1e-9 * min(w, h) * k2, acc * k2, pts2, 'rounded-rect-scaled')
         # triangle, both orientations, sometimes thin
         t = [rng.uniform(-10, 10) for _ in range(6)]
         if rng.random() < 0.2:
